@@ -139,6 +139,11 @@ class MultivariateNormalPrior(Prior, MultivariateNormal):
         _bufferize_attributes(self, ("loc", "_unbroadcasted_scale_tril"))
         self._transform = transform
 
+    def _load_from_state_dict(self, *args, **kwargs):
+        super()._load_from_state_dict(*args, **kwargs)
+        # covariance_matrix / precision_matrix / scale_tril are derived from the loaded factor: reset the cached values
+        _del_attributes(self, MVN_LAZY_PROPERTIES)
+
     def cuda(self, device=None):
         """Applies module-level cuda() call and resets all lazy properties"""
         module = self._apply(lambda t: t.cuda(device))
